@@ -55,7 +55,7 @@ M = [
  # C09
  ("c09-overflow-lt", "C09", "checks.go", "if got <= maxVal {", "if got < maxVal {"),
  ("c09-username-limit", "C09", "textattrs.go", "const maxUsernameB = 513", "const maxUsernameB = 514"),
- ("c09-add-before-check", "C09", "textattrs.go", "if err := CheckOverflow(t, len(v), maxLen); err != nil {\n\t\treturn err\n\t}\n\tm.Add(t, v)", "m.Add(t, v)\n\tif err := CheckOverflow(t, len(v), maxLen); err != nil {\n\t\treturn err\n\t}"),
+ ("c09-add-before-check", "C09", "textattrs.go", "\tif maxLen >= 0 {\n\t\tif err := CheckOverflow(t, len(v), maxLen); err != nil {\n\t\t\treturn err\n\t\t}\n\t}\n\tm.Add(t, v)", "\tm.Add(t, v)\n\tif maxLen >= 0 {\n\t\tif err := CheckOverflow(t, len(v), maxLen); err != nil {\n\t\t\treturn err\n\t\t}\n\t}"),
  ("c09-build-ignores-error", "C09", "helpers.go", "if err := s.AddTo(m); err != nil {\n\t\t\treturn err\n\t\t}\n\t}\n\n\treturn nil\n}\n\n// Check applies", "_ = s.AddTo(m)\n\t}\n\n\treturn nil\n}\n\n// Check applies"),
  # C13
  ("c13-collect-not-after", "C13", "agent.go", "if t.deadline.Before(gcTime) {", "if !t.deadline.After(gcTime) {"),
